@@ -81,6 +81,8 @@ def _member(draw, table, ident):
     after = draw(st.integers(0, 4)) == 0 and outer != ""
     gap = draw(st.sampled_from(["\n", "\n", " ", "\n\n", "\n  \n"])) if nl else " "
     text = (path + gap + outer) if after else ((outer + gap) if outer else "") + path
+    if nl and draw(st.integers(0, 3)) == 0:
+        text = text.replace("\n", "\r\n")   # written on Windows
     return {"text": text, "identity": ident, "outer": outer != "", "inner": inner, "marker": marker}
 
 
@@ -94,6 +96,11 @@ def _case(draw):
         for i in range(n):
             idents.append(f"m{v}{i}" if draw(st.integers(0, 3)) != 0 else None)
         versions.append([draw(_member(table, idents[i])) for i in range(n)])
+    big = [v for v in versions if len(v) >= 2]
+    if big and draw(st.integers(0, 2)) == 0:
+        # the same members in another order are another group content
+        v = draw(st.sampled_from(big))
+        versions.append(list(draw(st.permutations(v))))
     ops = []
     for _ in range(draw(st.integers(1, 6))):
         k = draw(st.sampled_from(["add", "add", "add", "readd", "remove", "new"]))
@@ -107,6 +114,12 @@ def _case(draw):
         else:
             ops.append(["new"])
     return {"versions": versions, "ops": ops}
+
+
+def nln(t):
+    """surrounding whitespace is not significant (statement); a CRLF line break inside a member reads back as a
+    line break (the group file is a text file)"""
+    return t.replace("\r\n", "\n").strip()
 
 
 def strategy(tier):
@@ -127,12 +140,12 @@ def check_group(cps, sb, g, members, nman, who):
         if got is not None:
             problems.append({"who": who, "group": g, "expected": None, "observed": repr(got)[:300]})
         return problems
-    texts = [m["text"].strip() for m in members]
+    texts = [nln(m["text"]) for m in members]
     got = core.call_real(pm.get_named_paths, g)
     if isinstance(got, core.Raised) or got is None:
         return [{"who": who, "group": g, "get_named_paths": repr(got)}]
-    if [t.strip() for t in got] != texts:
-        problems.append({"who": who, "group": g, "texts_expected": texts, "observed": [t.strip() for t in got]})
+    if [nln(t) for t in got] != texts:
+        problems.append({"who": who, "group": g, "texts_expected": texts, "observed": [nln(t) for t in got]})
         return problems
     for i, m in enumerate(members):
         if m["identity"] is None:
@@ -142,7 +155,7 @@ def check_group(cps, sb, g, members, nman, who):
                          (f"{g}#{idn}:from", texts[i:]), (f"{g}#{idn}:to", texts[: i + 1]),
                          (f"${g}.csvpaths.{idn}:from", texts[i:]), (f"${g}.csvpaths.{idn}:to", texts[: i + 1])):
             r = core.call_real(pm.get_named_paths, ref)
-            if isinstance(r, core.Raised) or r is None or [t.strip() for t in r] != exp:
+            if isinstance(r, core.Raised) or r is None or [nln(t) for t in r] != exp:
                 problems.append({"who": who, "ref": ref, "expected": exp, "observed": repr(r)[:400]})
     mp = os.path.join(sb.root, "inputs", "named_paths", g, "manifest.json")
     try:
